@@ -4,6 +4,7 @@ import (
 	"encoding/json"
 	"fmt"
 	"sort"
+	"strconv"
 	"strings"
 
 	"github.com/elastic/go-libaudit/v2/aucoalesce"
@@ -59,6 +60,7 @@ func otherRecs(t *tagger, collide string) map[string]recDesc {
 		"CWD":       {"CWD", "cwd=\"/cwd/" + t.v() + "\""},
 		"PATH0":     pathRec(t, 0, "NORMAL", "0100644", "ino"+t.v()),
 		"PATH1":     pathRec(t, 1, "PARENT", "040755", "ino"+t.v()),
+		"PATHC":     {"PATH", "item=1 name=\"/p/" + t.v() + "\" nametype=CREATE"},
 		"EXECVE":    {"EXECVE", "argc=2 a0=\"" + t.v() + "\" a1=\"" + t.v() + "\""},
 		"SOCKADDR":  {"SOCKADDR", "saddr=020001BB0A141E280000000000000000"},
 		"PROCTITLE": {"PROCTITLE", "proctitle=\"" + t.v() + "\""},
@@ -249,7 +251,7 @@ func c09Modes(c *enumx.Ctx) {
 
 // (b) all orders of all subsets of <=k other records around a SYSCALL at every position
 func c09Groups(c *enumx.Ctx) {
-	names := []string{"CWD", "PATH0", "PATH1", "EXECVE", "SOCKADDR", "PROCTITLE", "AVC", "BPRM"}
+	names := []string{"CWD", "PATH0", "PATH1", "PATHC", "EXECVE", "SOCKADDR", "PROCTITLE", "AVC", "BPRM"}
 	maxK := 3
 	if c.Tier == "thorough" {
 		maxK = 4
@@ -324,7 +326,13 @@ func c09Groups(c *enumx.Ctx) {
 											continue
 										}
 										pd, _ := m.Data()
-										if ev.File.Inode == pd["inode"] && ev.File.Path == pd["name"] && ev.File.Device == pd["rdev"] && ev.File.UID == pd["ouid"] && ev.File.GID == pd["ogid"] {
+										wantMode := ""
+										if mv, ok := pd["mode"]; ok {
+											if mo, err := strconv.ParseUint(mv, 8, 64); err == nil {
+												wantMode = fmt.Sprintf("%04o", mo&0o7777)
+											}
+										}
+										if ev.File.Inode == pd["inode"] && ev.File.Path == pd["name"] && ev.File.Device == pd["rdev"] && ev.File.UID == pd["ouid"] && ev.File.GID == pd["ogid"] && ev.File.Mode == wantMode {
 											mirrored = true
 										}
 									}
